@@ -31,73 +31,177 @@ macro_rules! roundtrip {
 }
 
 // @verif prop=C10 kernel=K1 tiers=quick,thorough timeout=900
-// @verif what=retain codec round trip for BOOL and the 8 integer types: decode(encode(v)) is bit-identical and consumes exactly the encoded bytes
+// @verif what=retain codec round trip: decode(encode(v)) is bit-identical and consumes exactly the encoded bytes (group 1/3: BOOL SINT INT)
 // @verif fns=retain::{encode_value,decode_value,RetainReader::*}
-// @verif bound=every payload value of BOOL, SINT, INT, DINT, LINT, USINT, UINT, UDINT, ULINT
+// @verif bound=every payload value of the listed types
 #[kani::proof]
 #[kani::unwind(10)]
-fn c10_roundtrip_integers() {
+fn c10_roundtrip_integers_1() {
     let k: u8 = kani::any();
-    match k % 9 {
+
+    let k: u8 = kani::any();
+    match k % 3 {
         0 => { let x: bool = kani::any(); roundtrip!(Value::Bool(x), |b| matches!(b, Value::Bool(y) if *y == x)) }
         1 => { let x: i8 = kani::any(); roundtrip!(Value::SInt(x), |b| matches!(b, Value::SInt(y) if *y == x)) }
-        2 => { let x: i16 = kani::any(); roundtrip!(Value::Int(x), |b| matches!(b, Value::Int(y) if *y == x)) }
-        3 => { let x: i32 = kani::any(); roundtrip!(Value::DInt(x), |b| matches!(b, Value::DInt(y) if *y == x)) }
-        4 => { let x: i64 = kani::any(); roundtrip!(Value::LInt(x), |b| matches!(b, Value::LInt(y) if *y == x)) }
-        5 => { let x: u8 = kani::any(); roundtrip!(Value::USInt(x), |b| matches!(b, Value::USInt(y) if *y == x)) }
-        6 => { let x: u16 = kani::any(); roundtrip!(Value::UInt(x), |b| matches!(b, Value::UInt(y) if *y == x)) }
-        7 => { let x: u32 = kani::any(); roundtrip!(Value::UDInt(x), |b| matches!(b, Value::UDInt(y) if *y == x)) }
-        _ => { let x: u64 = kani::any(); roundtrip!(Value::ULInt(x), |b| matches!(b, Value::ULInt(y) if *y == x)) }
+        _ => { let x: i16 = kani::any(); roundtrip!(Value::Int(x), |b| matches!(b, Value::Int(y) if *y == x)) }
     }
-    kani::cover!(k % 9 == 4);
-    kani::cover!(k % 9 == 0);
+    kani::cover!(k % 3 == 0);
+    kani::cover!(k % 3 == 2);
 }
 
 // @verif prop=C10 kernel=K1 tiers=quick,thorough timeout=900
-// @verif what=retain codec round trip for REAL, LREAL (bit patterns incl. NaN), BYTE, WORD, DWORD, LWORD, CHAR, WCHAR, NULL
+// @verif what=retain codec round trip: decode(encode(v)) is bit-identical and consumes exactly the encoded bytes (group 2/3: DINT LINT USINT)
+// @verif fns=retain::{encode_value,decode_value,RetainReader::*}
+// @verif bound=every payload value of the listed types
+#[kani::proof]
+#[kani::unwind(10)]
+fn c10_roundtrip_integers_2() {
+    let k: u8 = kani::any();
+
+    let k: u8 = kani::any();
+    match k % 3 {
+        0 => { let x: i32 = kani::any(); roundtrip!(Value::DInt(x), |b| matches!(b, Value::DInt(y) if *y == x)) }
+        1 => { let x: i64 = kani::any(); roundtrip!(Value::LInt(x), |b| matches!(b, Value::LInt(y) if *y == x)) }
+        _ => { let x: u8 = kani::any(); roundtrip!(Value::USInt(x), |b| matches!(b, Value::USInt(y) if *y == x)) }
+    }
+    kani::cover!(k % 3 == 0);
+    kani::cover!(k % 3 == 2);
+}
+
+// @verif prop=C10 kernel=K1 tiers=quick,thorough timeout=900
+// @verif what=retain codec round trip: decode(encode(v)) is bit-identical and consumes exactly the encoded bytes (group 3/3: UINT UDINT ULINT)
+// @verif fns=retain::{encode_value,decode_value,RetainReader::*}
+// @verif bound=every payload value of the listed types
+#[kani::proof]
+#[kani::unwind(10)]
+fn c10_roundtrip_integers_3() {
+    let k: u8 = kani::any();
+
+    let k: u8 = kani::any();
+    match k % 3 {
+        0 => { let x: u16 = kani::any(); roundtrip!(Value::UInt(x), |b| matches!(b, Value::UInt(y) if *y == x)) }
+        1 => { let x: u32 = kani::any(); roundtrip!(Value::UDInt(x), |b| matches!(b, Value::UDInt(y) if *y == x)) }
+        _ => { let x: u64 = kani::any(); roundtrip!(Value::ULInt(x), |b| matches!(b, Value::ULInt(y) if *y == x)) }
+    }
+    kani::cover!(k % 3 == 0);
+    kani::cover!(k % 3 == 2);
+}
+
+
+// @verif prop=C10 kernel=K1 tiers=quick,thorough timeout=900
+// @verif what=retain codec round trip (bit patterns incl. NaN) (group 1/3: REAL LREAL BYTE)
 // @verif fns=retain::{encode_value,decode_value,RetainReader::*}
 // @verif bound=every payload bit pattern of the listed types
 #[kani::proof]
 #[kani::unwind(10)]
-fn c10_roundtrip_bits_floats_chars() {
+fn c10_roundtrip_bits_floats_chars_1() {
     let k: u8 = kani::any();
-    match k % 9 {
+
+    match k % 3 {
         0 => { let x: u32 = kani::any(); roundtrip!(Value::Real(f32::from_bits(x)), |b| matches!(b, Value::Real(y) if y.to_bits() == x)) }
         1 => { let x: u64 = kani::any(); roundtrip!(Value::LReal(f64::from_bits(x)), |b| matches!(b, Value::LReal(y) if y.to_bits() == x)) }
-        2 => { let x: u8 = kani::any(); roundtrip!(Value::Byte(x), |b| matches!(b, Value::Byte(y) if *y == x)) }
-        3 => { let x: u16 = kani::any(); roundtrip!(Value::Word(x), |b| matches!(b, Value::Word(y) if *y == x)) }
-        4 => { let x: u32 = kani::any(); roundtrip!(Value::DWord(x), |b| matches!(b, Value::DWord(y) if *y == x)) }
-        5 => { let x: u64 = kani::any(); roundtrip!(Value::LWord(x), |b| matches!(b, Value::LWord(y) if *y == x)) }
-        6 => { let x: u8 = kani::any(); roundtrip!(Value::Char(x), |b| matches!(b, Value::Char(y) if *y == x)) }
-        7 => { let x: u16 = kani::any(); roundtrip!(Value::WChar(x), |b| matches!(b, Value::WChar(y) if *y == x)) }
-        _ => { roundtrip!(Value::Null, |b| matches!(b, Value::Null)) }
+        _ => { let x: u8 = kani::any(); roundtrip!(Value::Byte(x), |b| matches!(b, Value::Byte(y) if *y == x)) }
     }
-    kani::cover!(k % 9 == 1);
-    kani::cover!(k % 9 == 8);
+    kani::cover!(k % 3 == 0);
+    kani::cover!(k % 3 == 2);
 }
 
 // @verif prop=C10 kernel=K1 tiers=quick,thorough timeout=900
-// @verif what=retain codec round trip for TIME, LTIME, DATE, LDATE, TOD, LTOD, DT, LDT at nanosecond/tick resolution
+// @verif what=retain codec round trip (bit patterns incl. NaN) (group 2/3: WORD DWORD LWORD)
 // @verif fns=retain::{encode_value,decode_value,RetainReader::*}
-// @verif bound=every i64 payload of the 8 duration/date types
+// @verif bound=every payload bit pattern of the listed types
 #[kani::proof]
 #[kani::unwind(10)]
-fn c10_roundtrip_time_date() {
+fn c10_roundtrip_bits_floats_chars_2() {
+    let k: u8 = kani::any();
+
+    match k % 3 {
+        0 => { let x: u16 = kani::any(); roundtrip!(Value::Word(x), |b| matches!(b, Value::Word(y) if *y == x)) }
+        1 => { let x: u32 = kani::any(); roundtrip!(Value::DWord(x), |b| matches!(b, Value::DWord(y) if *y == x)) }
+        _ => { let x: u64 = kani::any(); roundtrip!(Value::LWord(x), |b| matches!(b, Value::LWord(y) if *y == x)) }
+    }
+    kani::cover!(k % 3 == 0);
+    kani::cover!(k % 3 == 2);
+}
+
+// @verif prop=C10 kernel=K1 tiers=quick,thorough timeout=900
+// @verif what=retain codec round trip (bit patterns incl. NaN) (group 3/3: CHAR WCHAR NULL)
+// @verif fns=retain::{encode_value,decode_value,RetainReader::*}
+// @verif bound=every payload bit pattern of the listed types
+#[kani::proof]
+#[kani::unwind(10)]
+fn c10_roundtrip_bits_floats_chars_3() {
+    let k: u8 = kani::any();
+
+    match k % 3 {
+        0 => { let x: u8 = kani::any(); roundtrip!(Value::Char(x), |b| matches!(b, Value::Char(y) if *y == x)) }
+        1 => { let x: u16 = kani::any(); roundtrip!(Value::WChar(x), |b| matches!(b, Value::WChar(y) if *y == x)) }
+        _ => { roundtrip!(Value::Null, |b| matches!(b, Value::Null)) }
+    }
+    kani::cover!(k % 3 == 0);
+    kani::cover!(k % 3 == 2);
+}
+
+
+// @verif prop=C10 kernel=K1 tiers=quick,thorough timeout=900
+// @verif what=retain codec round trip at nanosecond/tick resolution (group 1/3: TIME LTIME DATE)
+// @verif fns=retain::{encode_value,decode_value,RetainReader::*}
+// @verif bound=every i64 payload of the listed types
+#[kani::proof]
+#[kani::unwind(10)]
+fn c10_roundtrip_time_date_1() {
+    let k: u8 = kani::any();
+
     let k: u8 = kani::any();
     let x: i64 = kani::any();
-    match k % 8 {
+    match k % 3 {
         0 => roundtrip!(Value::Time(Duration::from_nanos(x)), |b| matches!(b, Value::Time(y) if y.as_nanos() == x)),
         1 => roundtrip!(Value::LTime(Duration::from_nanos(x)), |b| matches!(b, Value::LTime(y) if y.as_nanos() == x)),
-        2 => roundtrip!(Value::Date(DateValue::new(x)), |b| matches!(b, Value::Date(y) if y.ticks() == x)),
-        3 => roundtrip!(Value::LDate(LDateValue::new(x)), |b| matches!(b, Value::LDate(y) if y.nanos() == x)),
-        4 => roundtrip!(Value::Tod(TimeOfDayValue::new(x)), |b| matches!(b, Value::Tod(y) if y.ticks() == x)),
-        5 => roundtrip!(Value::LTod(LTimeOfDayValue::new(x)), |b| matches!(b, Value::LTod(y) if y.nanos() == x)),
-        6 => roundtrip!(Value::Dt(DateTimeValue::new(x)), |b| matches!(b, Value::Dt(y) if y.ticks() == x)),
+        _ => roundtrip!(Value::Date(DateValue::new(x)), |b| matches!(b, Value::Date(y) if y.ticks() == x)),
+    }
+    kani::cover!(k % 3 == 0);
+    kani::cover!(k % 3 == 2);
+}
+
+// @verif prop=C10 kernel=K1 tiers=quick,thorough timeout=900
+// @verif what=retain codec round trip at nanosecond/tick resolution (group 2/3: LDATE TOD LTOD)
+// @verif fns=retain::{encode_value,decode_value,RetainReader::*}
+// @verif bound=every i64 payload of the listed types
+#[kani::proof]
+#[kani::unwind(10)]
+fn c10_roundtrip_time_date_2() {
+    let k: u8 = kani::any();
+
+    let k: u8 = kani::any();
+    let x: i64 = kani::any();
+    match k % 3 {
+        0 => roundtrip!(Value::LDate(LDateValue::new(x)), |b| matches!(b, Value::LDate(y) if y.nanos() == x)),
+        1 => roundtrip!(Value::Tod(TimeOfDayValue::new(x)), |b| matches!(b, Value::Tod(y) if y.ticks() == x)),
+        _ => roundtrip!(Value::LTod(LTimeOfDayValue::new(x)), |b| matches!(b, Value::LTod(y) if y.nanos() == x)),
+    }
+    kani::cover!(k % 3 == 0);
+    kani::cover!(k % 3 == 2);
+}
+
+// @verif prop=C10 kernel=K1 tiers=quick,thorough timeout=900
+// @verif what=retain codec round trip at nanosecond/tick resolution (group 3/3: DT LDT)
+// @verif fns=retain::{encode_value,decode_value,RetainReader::*}
+// @verif bound=every i64 payload of the listed types
+#[kani::proof]
+#[kani::unwind(10)]
+fn c10_roundtrip_time_date_3() {
+    let k: u8 = kani::any();
+
+    let k: u8 = kani::any();
+    let x: i64 = kani::any();
+    match k % 2 {
+        0 => roundtrip!(Value::Dt(DateTimeValue::new(x)), |b| matches!(b, Value::Dt(y) if y.ticks() == x)),
         _ => roundtrip!(Value::Ldt(LDateTimeValue::new(x)), |b| matches!(b, Value::Ldt(y) if y.nanos() == x)),
     }
-    kani::cover!(k % 8 == 0 && x % 1_000_000 != 0);
-    kani::cover!(k % 8 == 7 && x < 0);
+    kani::cover!(k % 2 == 0);
+    kani::cover!(k % 2 == 1);
 }
+
 
 // ---------------------------------------------------------------------------------------
 // K2: total decoder. Arbitrary bytes -> Ok/Err, never a panic, and every Vec::with_capacity
